@@ -1,0 +1,49 @@
+//go:build verif
+
+package csproto
+
+import "sync/atomic"
+
+// This file is only compiled with the "verif" build tag.  It exposes a few read-only observation
+// points used by the external runtime-verification harness.  Nothing here changes behavior.
+
+// VerifHook, when set, is invoked at named points inside the library so that a harness can inject
+// yields/delays between critical sections and count how often each point was reached.
+var VerifHook atomic.Pointer[func(site string)]
+
+// VerifCopyObserver, when set, is invoked whenever the encoder is about to copy need bytes into a
+// buffer with only avail bytes remaining (i.e. a copy that would be silently truncated).
+var VerifCopyObserver atomic.Pointer[func(avail, need int)]
+
+func verifPoint(site string) {
+	if h := VerifHook.Load(); h != nil {
+		(*h)(site)
+	}
+}
+
+func verifCopy(e *Encoder, need int) {
+	if avail := len(e.p) - e.offset; avail < need {
+		if h := VerifCopyObserver.Load(); h != nil {
+			(*h)(avail, need)
+		}
+	}
+}
+
+// VerifOffset returns the encoder's current write offset.
+func (e *Encoder) VerifOffset() int {
+	return e.offset
+}
+
+// VerifBufLen returns the length of the buffer the encoder writes to.
+func (e *Encoder) VerifBufLen() int {
+	return len(e.p)
+}
+
+// VerifResetTypeCache empties the message type classification cache.  It must only be called while
+// no other goroutine is using the library.
+func VerifResetTypeCache() {
+	unmarshalMap.Range(func(k, _ any) bool {
+		unmarshalMap.Delete(k)
+		return true
+	})
+}
